@@ -279,6 +279,35 @@ class _Unraisable:
                           sig(getattr(u.exc_value, 'args', None))])
 
 
+_FIN_TAGS = ("'cagen-fin'", "'pyagen-fin'", "'cs-fin'", "'ps-fin'", "'pc-fin'", "'cc-fin'", "'caw-fin'")
+
+
+def _is_helper_fin(it):
+    # log entries written by the finally blocks of the helper sub-generators / awaitables
+    if it[0] == 'str':
+        return it[1] in _FIN_TAGS
+    return it[0] == 'tuple' and it[1] and it[1][0][0] == 'str' and it[1][0][1] in _FIN_TAGS
+
+
+def _normalise_log(log, n0):
+    """Order in which several *abandoned* sub-iterators of one object are finalised (frame teardown order in
+    CPython, closure field order in compiled code) is not part of the protocol: sort every run of consecutive
+    helper-finaliser entries."""
+    items = log.items
+    i = n0
+    while i < len(items):
+        if _is_helper_fin(items[i]):
+            j = i
+            while j < len(items) and _is_helper_fin(items[j]):
+                j += 1
+            if j - i > 1:
+                items[i:j] = sorted(items[i:j], key=repr)
+            i = j
+        else:
+            i += 1
+    return items[n0:]
+
+
 def _in_handler(fn):
     def run():
         try:
@@ -373,7 +402,7 @@ def drive(M, log, name, kind, history, flags=''):
                 g = tgt = fn = None
                 pend[:] = []
                 gc.collect()
-                trace.append([op, ['deleted'], log.items[n0:], hook.recs[u0:]])
+                trace.append([op, ['deleted'], _normalise_log(log, n0), hook.recs[u0:]])
                 break
             if kind == 'agen':
                 o, _, mode = o.partition('/')
@@ -396,7 +425,7 @@ def drive(M, log, name, kind, history, flags=''):
                 out = _outcome(fn)
                 if o == 'close' and out[0] == 'yield':
                     out = ['closed', out[1]]
-            trace.append([op, out, log.items[n0:], hook.recs[u0:]])
+            trace.append([op, out, _normalise_log(log, n0), hook.recs[u0:]])
         else:
             # abandonment: every history ends by dropping the object
             n0 = len(log.items)
@@ -406,7 +435,7 @@ def drive(M, log, name, kind, history, flags=''):
             g = tgt = fn = None
             pend[:] = []
             gc.collect()
-            trace.append(['(drop)', ['deleted'], log.items[n0:], hook.recs[u0:]])
+            trace.append(['(drop)', ['deleted'], _normalise_log(log, n0), hook.recs[u0:]])
     finally:
         sys.unraisablehook = old_hook
         sys.set_asyncgen_hooks(*old_ag)
@@ -443,6 +472,8 @@ def _state_after(ctx, kind, prev_state, op, out):
         return 'created'
     if out[0] == 'exc' and len(out) > 2 and out[1] == 'ValueError' and 'already executing' in repr(out[2]):
         return prev_state
+    if out[0] == 'exc' and len(out) > 2 and out[1] == 'RuntimeError' and 'ignored GeneratorExit' in repr(out[2]):
+        return 'susp-unknown'
     return 'finished'
 
 
@@ -478,7 +509,7 @@ def _coverage(M, name, kind, history, trace):
         op, out = ent[0], ent[1]
         o = op[2:] if op.startswith('H!') else op
         opk = o.split(':')[0].split('/')[0] + (':' + o.split(':')[1].split('/')[0] if ':' in o else '')
-        cells.append('%s|%s|%s' % (kind, state, opk))
+        cells.append('%s~%s~%s' % (kind, state, opk))
         if out[0] == 'deleted':
             break
         state = _state_after(ctx, kind, state, o, out)
@@ -488,9 +519,9 @@ def _coverage(M, name, kind, history, trace):
         for it in ent[2]:
             if it and it[0] == 'tuple' and it[1] and it[1][0] == ['str', "'re'"]:
                 nre += 1
-                cells.append('%s|running|%s' % (kind, it[1][1][1].strip("'")))
+                cells.append('%s~running~%s' % (kind, it[1][1][1].strip("'")))
     import hashlib
     h = hashlib.blake2b(repr((name, trace)).encode('utf-8', 'replace'), digest_size=8).hexdigest()
-    nontrivial = sum(1 for c in cells if '|created|' not in c) >= 1 and len(cells) >= 2
+    nontrivial = sum(1 for c in cells if '~created~' not in c) >= 1 and len(cells) >= 2
     _COV[0].write(json.dumps({'h': h, 'nt': nontrivial, 'cells': cells, 'unr': sum(len(e[3]) for e in trace[1:])}) + '\n')
     _COV[0].flush()
